@@ -175,6 +175,14 @@ class AList:
         return ("list", tuple(vkey(i) for i in self.items))
 
 
+class ASet(AList):
+    """Abstract mutable set: like a list, but its key ignores order and multiplicity, and equals the key
+    of the immutable `set([...])` / `{...}` atom with the same elements."""
+
+    def key(self):
+        return ("call", "set", tuple(sorted({vkey(i) for i in self.items}, key=_k)), ())
+
+
 class ADict:
     def __init__(self, items=None, doms=()):
         self.items = dict(items or {})  # key-key -> (keyval, val)
@@ -206,6 +214,8 @@ def as_term(v):
         return v
     if isinstance(v, (int, float, Fraction)) and not isinstance(v, bool):
         return Poly.const(v)
+    if isinstance(v, ASet):
+        return Poly.atom(v.key())
     return Poly.atom(("val", vkey(v)))
 
 
@@ -522,7 +532,8 @@ def make_cond(alts):
             for d in v.doms:
                 if d not in doms:
                     doms.append(d)
-        return AList(items, doms)
+        cls = ASet if all(isinstance(v, ASet) for _, v in alts) else AList
+        return cls(items, doms)
     # containers: merge component-wise when shapes agree
     if all(isinstance(v, ATuple) for _, v in alts) and len({len(v.items) for _, v in alts}) == 1:
         n = len(alts[0][1].items)
@@ -556,7 +567,7 @@ def _clone_env(env):
     def clone(v):
         if isinstance(v, AList):
             if id(v) not in memo:
-                n = AList([], list(v.doms))
+                n = type(v)([], list(v.doms))
                 memo[id(v)] = n
                 n.items = [clone(x) for x in v.items]
             return memo[id(v)]
@@ -827,6 +838,9 @@ class Frame:
             for st2, oc in outs:
                 if oc[0] in ("fall", "continue"):
                     cont.append(st2)
+                elif oc[0] == "raise":
+                    # a raising path ends the computation: it contributes no value to what follows
+                    self.I.notes.append("raise inside a loop of %s: %s" % (self.fi.qualname, oc[1]))
                 else:
                     raise Unsupported("%s inside a loop of %s" % (oc[0], self.fi.qualname))
             if not cont:
@@ -899,6 +913,16 @@ class Frame:
         if isinstance(target, ast.Subscript):
             base = self.eval(target.value, st)
             idx = self.eval_index(target.slice, st)
+            if isinstance(base, ADict):
+                # record the event against the dictionary as it was, then grow the abstract dictionary
+                self.I.events.append(Event("store_sub", [ADict(dict(base.items), list(base.doms)), idx, v], {}, st.guards, target))
+                base.items[vkey(idx)] = (idx, v)
+                for d in self.I.loop_doms:
+                    if d is not None:
+                        for x in d:
+                            if x not in base.doms:
+                                base.doms.append(x)
+                return
             slot = ("@sub", vkey(base), vkey(idx))
             st.env[slot] = v
             self.I.events.append(Event("store_sub", [base, idx, v], {}, st.guards, target))
@@ -1076,7 +1100,7 @@ class Frame:
         return AList([self.eval(x, st) for x in e.elts])
 
     def e_Set(self, e, st):
-        return Poly.atom(("call", "set", tuple(sorted((vkey(self.eval(x, st)) for x in e.elts), key=_k)), ()))
+        return ASet([self.eval(x, st) for x in e.elts])
 
     def e_Dict(self, e, st):
         d = ADict()
@@ -1295,7 +1319,11 @@ class Frame:
             return d
         if dotted in ("frozenset", "set") and len(args) == 1 and not kwargs and isinstance(args[0], (AList, ATuple)):
             # a set is insensitive to the order (and multiplicity) of its elements
+            if dotted == "set":
+                return ASet(list(args[0].items), list(getattr(args[0], "doms", [])))
             return Poly.atom(("call", dotted, tuple(sorted({vkey(i) for i in args[0].items}, key=_k)), ()))
+        if dotted == "set" and not args and not kwargs:
+            return ASet()
         if dotted == "list" and not args:
             return AList()
         if (name in IDENTITY_CALLS or dotted in IDENTITY_CALLS) and len(args) == 1 and not kwargs.keys() - {"dtype", "order"}:
@@ -1369,6 +1397,10 @@ class Frame:
     def call_method(self, recv, f, args, kwargs, st, node):
         name = f.attr
         # abstract containers
+        if isinstance(recv, ASet) and name == "add" and len(args) == 1:
+            name = "append"
+        if isinstance(recv, ASet) and name == "update" and len(args) == 1:
+            name = "extend"
         if isinstance(recv, AList):
             if name == "append" and len(args) == 1:
                 recv.items.append(args[0])
@@ -1387,14 +1419,14 @@ class Frame:
                     recv.items.append(Poly.atom(("star", vkey(args[0]))))
                 return None
             if name == "copy" and not args:
-                return AList(recv.items, recv.doms)
+                return type(recv)(recv.items, recv.doms)
         if isinstance(recv, ADict):
-            if name == "items" and not recv.doms:
-                return AList([ATuple([k, v]) for k, v in recv.items.values()])
-            if name == "values" and not recv.doms:
-                return AList([v for k, v in recv.items.values()])
-            if name == "keys" and not recv.doms:
-                return AList([k for k, v in recv.items.values()])
+            if name == "items" and (recv.items or not recv.doms):
+                return AList([ATuple([k, v]) for k, v in recv.items.values()], list(recv.doms))
+            if name == "values" and (recv.items or not recv.doms):
+                return AList([v for k, v in recv.items.values()], list(recv.doms))
+            if name == "keys" and (recv.items or not recv.doms):
+                return AList([k for k, v in recv.items.values()], list(recv.doms))
             if name == "get" and args and vkey(args[0]) in recv.items:
                 return recv.items[vkey(args[0])][1]
         # super().method(...)
@@ -1679,6 +1711,8 @@ class Valuation:
                     return self.truth(k)
                 if k[0] == "list":
                     return ("list", tuple(self.image(x) for x in k[1] if not self.is_absent_key(x)))
+                if k[0] == "call" and k[1] in ("set", "frozenset") and not k[3]:
+                    return (k[1], tuple(sorted({repr(self.image(x)) for x in k[2] if not self.is_absent_key(x)})))
                 if k[0] in ("tuple", "dict", "slice", "val"):
                     return (k[0],) + tuple(self.image(x) for x in k[1:])
                 return _round(self.atom(k))
@@ -1765,6 +1799,8 @@ class Valuation:
             if self.is_absent_key(v.key()):
                 return "ABSENT"
             return self.poly(v)
+        if isinstance(v, ASet):
+            return ("set", tuple(sorted({repr(self.value(i)) for i in v.items if self.value(i) != "ABSENT"})))
         if isinstance(v, AList):
             # a list is compared as the sequence of its *present* elements
             return tuple(x for x in (self.value(i) for i in v.items) if x != "ABSENT")
